@@ -21,7 +21,8 @@ if git apply --check "$PATCH" 2>/dev/null; then applies=true; git apply "$PATCH"
 run_demo() {
   if [ "$ext" = "rs" ]; then
     cp "$DEMO" tests/seed_demo_x.rs
-    timeout 1800 cargo test --offline --test seed_demo_x >/tmp/vs/demo.log 2>&1; rc=$?
+    FEAT=""; grep -q "tsrun::ffi\|c-api" "$DEMO" && FEAT="--features c-api"
+    timeout 1800 cargo test --offline $FEAT --test seed_demo_x >/tmp/vs/demo.log 2>&1; rc=$?
     rm -f tests/seed_demo_x.rs
     return $rc
   else
